@@ -20,7 +20,7 @@ NOT_DECIDED = ['zeroing does not fail for reachable targets (convergence of thet
 EXTRA_ASSUMPTIONS = ['the single row returned by _integrate(shot, R, R, NONE) is a function of the barrel elevation and R '
                      '(uninterpreted function zero_run_height); justified by the frame clause modifies=[] of _integrate and '
                      'the absence of random/time sources, not machine-checked']
-EXTRA = ['bounded_zero_level', 'bounded_zero_inclined']
+EXTRA = ['bounded_zero_level', 'bounded_zero_out_of_reach', 'bounded_zero_inclined']
 
 
 def _miss(P, calc, shot, dist_yd):
@@ -93,3 +93,42 @@ def bounded_zero_inclined(tier, seed):
            'set_weapon_zero then fire on inclined sight lines (5, 10, -10, 20 deg at 300 yd): |target_drop| at the zero '
            'look-distance within accuracy + interpolation', cases, t0, f'worst miss {worst:.4f} ft, {fails} failed to converge')
     return result('bounded:zero-inclined', [o], t0, props=('C02',))
+
+
+def bounded_zero_out_of_reach(tier, seed):
+    """targets at and beyond the projectile's reach on a level sight line: zeroing either raises, or the angle it returns
+    (and stores) really hits within the accuracy - it never returns an angle that misses"""
+    from pyvc.bounded import pkg, mk
+    from pyvc.scan import result
+    P = pkg()
+    t0 = time.time()
+    bad = None
+    cases = 0
+    plan = [(0.02, 900, 0, d) for d in (300, 340, 380, 390, 400, 450)] + [(0.15, 1050, 8000, d) for d in (1800, 2200, 2600)]
+    for bc, mv, alt, d in plan:
+        shot = P.Shot(P.Weapon(P.Unit.Inch(2), 0), P.Ammo(P.DragModel(bc, P.TableG1), P.Unit.FPS(mv)),
+                      atmo=P.Atmo.icao(P.Unit.Foot(alt)))
+        calc = P.Calculator()
+        before = shot.weapon.zero_elevation.raw_value
+        cases += 1
+        try:
+            el = calc.set_weapon_zero(shot, P.Unit.Yard(d))
+        except (P.ZeroFindingError, P.RangeError):
+            if shot.weapon.zero_elevation.raw_value != before:
+                bad = f'BC {bc}, {mv} fps, {d} yd: zeroing raised but the stored zero changed'
+            continue
+        try:
+            tr = calc.fire(shot, P.Unit.Yard(d), P.Unit.Yard(d)).trajectory
+            row = min(tr, key=lambda r: abs((r.distance >> P.Unit.Yard) - d))
+            miss = abs(row.target_drop >> P.Unit.Foot) if abs((row.distance >> P.Unit.Yard) - d) < 0.5 else float('inf')
+        except P.RangeError:
+            miss = float('inf')
+        import math
+        slope = abs(math.tan(row.angle >> P.Unit.Radian)) if miss != float('inf') else 0.0
+        if miss > 5e-6 + 0.6 * slope + 1e-4:
+            bad = (f'BC {bc}, {mv} fps at {alt} ft, zero at {d} yd: zeroing returned {el} (no error) but the shot fired with it '
+                   f'misses the aim point by {miss} ft')
+    return result('bounded:zero-out-of-reach', [mk('a-returned-zero-hits-or-zeroing-raises', bad is None,
+                  'light pellet (G1 0.02, 900 fps) at 300-450 yd and a slow bullet at 8000 ft at 1800-2600 yd, level sight line: '
+                  'set_weapon_zero raises (stored zero untouched) or the returned angle hits within accuracy + one step x slope',
+                  cases, t0, bad)], t0, props=('C02',))
